@@ -296,7 +296,13 @@ def _call_frame(m, x, y, a):
     if m == "modify_callable": return x.modify(new=lambda d: d[first]) if first else x.modify()
     if m == "modify_grouped":
         prev = x._group_colnames
-        out = x.group_by(first).modify(gn=lambda d: d.nrow)
+        def writing(d):
+            # the function edits the frame it was handed (its own business) and returns the edited column
+            col = d[first]
+            if len(col) and col.flags.writeable:
+                col[0] = _poke_value(col)
+            return col
+        out = x.group_by(first).modify(**({"gn": lambda d: d.nrow} if a % 2 else {"gw": writing}))
         x._group_colnames = prev
         return out
     if m == "cbind": return x.cbind(y)
